@@ -74,6 +74,10 @@ def shaped_files():
     yield {'cls': 'complex-parts', 'insts': [N(1), "#2=HOLDER((#1),$,'t');", '#3=(SUB1(#2)SUB2(5)SUP(#1));', '#4=SUB1(#1,#2);', '#5=(SUB2(7)SUP($));']}
     yield {'cls': 'forward-refs', 'insts': [N(1, 3, 2), N(2, 3), N(3)]}
     yield {'cls': 'chain-4', 'insts': [N(1, 2), N(2, 3), N(3, 4), N(4)]}
+    # long reference chains: loading the head of a chain of unloaded instances nests one load per link
+    for n in (70,):
+        yield {'cls': 'chain-long', 'detail': str(n), 'insts': [N(i, i + 1 if i < n else None) for i in range(1, n + 1)]}
+        yield {'cls': 'chain-long-backwards', 'detail': str(n), 'insts': [N(i, i - 1 if i > 1 else None) for i in range(1, n + 1)]}
     yield {'cls': 'cycle-4', 'insts': [N(1, 2), N(2, 3), N(3, 4), N(4, 1)]}
     yield {'cls': 'diamond', 'insts': [N(1, 2, 3), N(2, 4), N(3, 4), N(4)]}
     yield {'cls': 'sparse-ids', 'insts': ['#7=NODE($,$,7);', '#1000=NODE(#7,$,1);', '#999999=NODE(#1000,#7,2);', "#2147483000=HOLDER((#7,#999999),#1000,'big');"]}
@@ -106,6 +110,7 @@ _W = {}
 
 def _init(libdir, sanlibdir=None):
     lib = build.SchemaLib(libdir, 'plain', [])
+    _W['plainlib'] = lib if sanlibdir else None
     # the lazy loader runs on the sanitizer build: a crash is then attributed to its site
     _W['lz'] = drv.Driver('lazydrv', build.SchemaLib(sanlibdir, 'san', []) if sanlibdir else lib, 'san' if sanlibdir else 'plain', timeout=60, lazy=True)
     _W['eg'] = drv.Driver('p21drv', lib, 'plain', timeout=30)
@@ -126,8 +131,22 @@ def closure(fwd, i):
 
 
 def run_file(case):
+    """the sanitizer build of the lazy loader names the site of a crash.  A report of the undefined-behaviour sanitizer alone (e.g. a misaligned load in
+    the bundled judy arrays) is not what this property is about: such a file is judged once more on the plain build, and only its result counts."""
+    v, st = _run_file(case, _W['lz'])
+    if any(k.startswith('crash/UB:') for k, _, _ in v) and _W.get('plainlib') is not None:
+        if 'lzp' not in _W:
+            _W['lzp'] = drv.Driver('lazydrv', _W['plainlib'], 'plain', timeout=60, lazy=True)
+            import atexit
+            atexit.register(_W['lzp'].close)
+        v, st = _run_file(case, _W['lzp'])
+        st['ub_only'] = 1
+    return v, st
+
+
+def _run_file(case, lz):
     """everything for one file: index/refs/deps comparison + BFS over loaded sets"""
-    lz, eg = _W['lz'], _W['eg']
+    eg = _W['eg']
     lz.recycle_if_big()
     eg.recycle_if_big()
     text = file_of(case['insts'])
@@ -201,7 +220,7 @@ def run_file(case):
             if set(int(x) for x in d) != want:
                 viol.append(('dependencies/%s' % ('cycle' if iid in want else ctx), 'dependencies of #%d: %s, transitive closure of the forward table is %s' % (iid, sorted(int(x) for x in d), sorted(want)), case))
         # BFS over loaded sets
-        ids = sorted(eager)[:4]
+        ids = sorted(eager)[:4] if not ctx.startswith('chain-long') else sorted(eager)[:2] + sorted(eager)[-2:]
         seen = {frozenset(): []}
         frontier = [[]]
         while frontier:
@@ -283,6 +302,10 @@ def main():
     chk.assumptions = ['p21ref decides which ids an instance mentions', 'a file the eager reader itself rejects is judged by C01, not here']
     cases = list(digraph_files()) + list(shaped_files())
     if args.tier == 'thorough':
+        N = lambda i, a=None: '#%d=NODE(%s,$,%d);' % (i, ref(a), i)
+        for n in (63, 64, 65, 66, 130, 300):
+            cases.append({'cls': 'chain-long', 'detail': str(n), 'insts': [N(i, i + 1 if i < n else None) for i in range(1, n + 1)]})
+            cases.append({'cls': 'chain-long-backwards', 'detail': str(n), 'insts': [N(i, i - 1 if i > 1 else None) for i in range(1, n + 1)]})
         cases += list(mixed_files())
         chk.rule += '; thorough: every kind assignment (NODE / HOLDER list / complex) to 3 instances with every reference choice, all functional graphs on 4 nodes and those plus ring edges'
     sanlib = build.schema_lib(SCHEMA, 'san')
@@ -290,6 +313,8 @@ def main():
         res = pool.map(run_file, cases, 8)
     for c, (viol, st) in zip(cases, res):
         chk.count(states=max(1, st['states']), transitions=max(1, st['transitions']))
+        if st.get('ub_only'):
+            chk.extra['files_judged_on_the_plain_build_after_an_undefined_behaviour_report'] = chk.extra.get('files_judged_on_the_plain_build_after_an_undefined_behaviour_report', 0) + 1
         chk.cls(c['cls'])
         if not viol:
             chk.outcome('equal')
